@@ -21,6 +21,10 @@ Theorem C20_mod_eq_iff_key_eq : C20_mod_eq_iff_key_eq_stmt.
 Proof. exact mod_eq_iff_key_eq. Qed.
 Print Assumptions C20_mod_eq_iff_key_eq.
 
+Theorem C20_mod_mixed_arity : C20_mod_mixed_arity_stmt.
+Proof. exact mod_mixed_arity. Qed.
+Print Assumptions C20_mod_mixed_arity.
+
 Theorem C20_dist_eq_implies_key_eq : C20_dist_eq_implies_key_eq_stmt.
 Proof. exact dist_eq_implies_key_eq. Qed.
 Print Assumptions C20_dist_eq_implies_key_eq.
